@@ -71,34 +71,34 @@ structure Limits where
 def rd (t : Tgt) (off width : Int) : Access := ⟨t, off, width, .read⟩
 def wr (t : Tgt) (off width : Int) : Access := ⟨t, off, width, .write⟩
 
-/-- F_INDEX: `c[n]` as an rvalue.  The guards test the 64-bit operand; `i = (int)n` afterwards. -/
+/-- F_INDEX: `c[n]` as an rvalue.  The guards test the 64-bit operand; the index computed afterwards is the
+    REGENERATED `idx_index_*` (`i = (int)n`). -/
 def opIndex (k : Kind) (size : Int) (n : Int) : R :=
-  let i := trunc32 n
   match k with
-  | .buf => if guard_index_buf n size then .error (.lpc msg_index_buf) else .ok ⟨[rd .owner i 1], .elem i⟩
-  | .str => if guard_index_str n size then .error (.lpc msg_index_str) else .ok ⟨[rd .owner i 1], .elem i⟩
+  | .buf => if guard_index_buf n size then .error (.lpc msg_index_buf)
+            else .ok ⟨[rd .owner (idx_index_buf n) 1], .elem (idx_index_buf n)⟩
+  | .str => if guard_index_str n size then .error (.lpc msg_index_str)
+            else .ok ⟨[rd .owner (idx_index_str n) 1], .elem (idx_index_str n)⟩
   | .arr =>
     if guard_index_arr_neg n then .error (.lpc msg_index_arr_neg)
     else if guard_index_arr n size then .error (.lpc msg_index_arr)
-    else .ok ⟨[rd .owner i 1], .elem i⟩
+    else .ok ⟨[rd .owner (idx_index_arr n) 1], .elem (idx_index_arr n)⟩
 
-/-- F_RINDEX: `c[<n]` as an rvalue.  The guards test the 64-bit operand, then the index is computed. -/
+/-- F_RINDEX: `c[<n]` as an rvalue.  The guards test the 64-bit operand, then the index is computed by the
+    REGENERATED `idx_rindex_*` (`size - (int)n` in the arithmetic of the C operand types). -/
 def opRindex (k : Kind) (size : Int) (n : Int) : R :=
   match k with
   | .buf =>
-    -- i = sp->u.buf->size - (int)n   : unsigned int arithmetic, stored into an int
-    let i := trunc32 (truncU32 (size - trunc32 n))
-    if guard_rindex_buf n size then .error (.lpc msg_rindex_buf) else .ok ⟨[rd .owner i 1], .elem i⟩
+    if guard_rindex_buf n size then .error (.lpc msg_rindex_buf)
+    else .ok ⟨[rd .owner (idx_rindex_buf size n) 1], .elem (idx_rindex_buf size n)⟩
   | .str =>
-    -- i = (int)(len - n)             : size_t arithmetic
-    let i := trunc32 (truncU64 (size - n))
-    if guard_rindex_str n size then .error (.lpc msg_rindex_str) else .ok ⟨[rd .owner i 1], .elem i⟩
+    if guard_rindex_str n size then .error (.lpc msg_rindex_str)
+    else .ok ⟨[rd .owner (idx_rindex_str size n) 1], .elem (idx_rindex_str size n)⟩
   | .arr =>
-    -- i = arr->size - (int)n         : int arithmetic, after the guard
-    let i := size - trunc32 n
     if guard_rindex_arr n size then .error (.lpc msg_rindex_arr)
-    else if !inS32 i then .error (.ub "rindex_arr")
-    else .ok ⟨[rd .owner i 1], .elem i⟩
+    -- `arr->size - (int)n` is int arithmetic: leaving the range of int is undefined behaviour
+    else if !inS32 (size - trunc32 n) then .error (.ub "rindex_arr")
+    else .ok ⟨[rd .owner (idx_rindex_arr size n) 1], .elem (idx_rindex_arr size n)⟩
 
 /-- the byte store of F_VOID_ASSIGN through a T_LVALUE_BYTE -/
 def byteStoreOk (v : Int) : Bool := decide (v % 256 ≠ 0)
